@@ -120,6 +120,22 @@ def check(ctx):
                   "T1-more", t.ast, "stop test `%s` after tasker loop, before stamp advance" % src(t.ast.test),
                   "the stop test must be evaluated after all taskers ran and before the next tick begins")
 
+    # the status tested for `more` is the status of the tasker handled in *this* iteration, on every path through it
+    st_tests = [t for t in cfg.nodes if t.kind == "test" and t.id in body_ids and any(
+        isinstance(x, ast.Name) and x.id == "status" and isinstance(x.ctx, ast.Load) for x in cfg.walk_node(t))]
+    V.need(st_tests, "test on status in the tick loop")
+    sdefs = V._def_nodes("status") & body_ids
+    first = [b for b, lab in cfg.succ[hdr.id] if lab == "iter"]
+    stale = None
+    for t in st_tests:
+        for p in cfg.paths(first[0], [t.id], max_visits=1, limit=500):
+            # an assignment whose right-hand side raised (the path leaves it on an exception edge) has not assigned
+            done = [a for a, b in zip(p, p[1:]) if a in sdefs and not all(l == "exc" for x, l in cfg.succ[a] if x == b)]
+            if not done:
+                stale = p
+    ctx.check(stale is None, "T1-more", st_tests[0].ast, "every path through a tick-loop iteration assigns `status` before it is tested",
+              "on the path %s `status` still holds the previous tasker's value (or nothing at all in the first iteration: "
+              "UnboundLocalError ends the run with a surprise exception)" % (V.path_text(stale) if stale else ""))
     # T2-sweep
     sweep_hdrs = [n for n in cfg.nodes if n.kind == "for" and n.ast is not tick_for and
                   any(isinstance(x, ast.Call) and suffix_match(call_name(x), "ready.popleft")
@@ -172,13 +188,40 @@ def check(ctx):
                 tol = any(cfg.nodes[b].kind == "except" for b, lab in cfg.succ[n.id])
                 ctx.check(tol, "T2-sweep", c, "send(ABORT) inside try/except StopIteration",
                           "a tasker whose generator already ended must not abort the sweep")
+                # ... nor may a tasker that fails while aborting (an exit action that raises): the try that holds the send
+                # has a handler for Exception whose body stays in the loop (no raise / break / return)
+                broad = False
+                pt = getattr(c, "_parent", None)
+                while pt is not None and pt is not fn and not broad:
+                    if isinstance(pt, ast.Try) and any(c in list(ast.walk(b)) for b in pt.body):
+                        for hh in pt.handlers:
+                            names = {"BaseException"} if hh.type is None else \
+                                {(dotted(x) or "").split(".")[-1] for x in (hh.type.elts if isinstance(hh.type, ast.Tuple) else [hh.type])}
+                            if names & {"Exception", "BaseException"} and not any(
+                                    isinstance(x, (ast.Raise, ast.Break, ast.Return)) for b in hh.body for x in ast.walk(b)):
+                                broad = True
+                    pt = getattr(pt, "_parent", None)
+                ctx.check(broad, "T2-sweep", c, "send(ABORT) inside a try whose `except Exception` keeps the sweep going",
+                          "an exception raised by one tasker while it handles the final ABORT (an exit action that raises) ends the "
+                          "sweep: the taskers behind it are never sent ABORT and never exit their frames")
 
     # T10-reraise
     for h in ast.walk(fn):
         if isinstance(h, ast.ExceptHandler) and h.type is not None and dotted(h.type) in ("Exception", "SystemExit", "BaseException"):
             last = h.body[-1] if h.body else None
             jumps = [x for s in h.body for x in ast.walk(s) if isinstance(x, (ast.Return, ast.Break, ast.Continue))]
-            ctx.check(isinstance(last, ast.Raise) and last.exc is None and not jumps, "T10-reraise", h,
+            deferred = False
+            if h.name and not jumps and not any(isinstance(x, ast.Raise) for s_ in h.body for x in ast.walk(s_)):
+                # the exception is kept (`failure = ex`, first one wins) and raised once the loop it interrupted has finished
+                kept = {t.id for s_ in h.body for x in ast.walk(s_) if isinstance(x, ast.Assign) and dotted(x.value) == h.name
+                        for t in x.targets if isinstance(t, ast.Name)}
+                for k_ in kept:
+                    rs = [x for x in ast.walk(fn) if isinstance(x, ast.Raise) and dotted(x.exc) == k_]
+                    for r_ in rs:
+                        pr = getattr(r_, "_parent", None)
+                        if isinstance(pr, ast.If) and src(pr.test) in ("%s is not None" % k_, k_) and not pr.orelse:
+                            deferred = True
+            ctx.check((isinstance(last, ast.Raise) and last.exc is None and not jumps) or deferred, "T10-reraise", h,
                       "except %s: ... raise" % dotted(h.type),
                       "an exception raised from an action must be re-raised after the sweep, not swallowed")
     ki = [h for h in ast.walk(fn) if isinstance(h, ast.ExceptHandler) and h.type is not None and dotted(h.type) == "KeyboardInterrupt"]
